@@ -4,6 +4,7 @@ From Coq Require Import List NArith ZArith.
 From TarsV Require Import Base.Hex Codec.Wire Codec.Skip Codec.Prim Codec.PrimProofs.
 From TarsV Require Xlate.ReaderEquiv.
 From TarsV Require Xlate.CodecEquiv.
+From TarsV Require Xlate.FloatEquiv.
 Import ListNotations.
 Open Scope N_scope.
 
